@@ -109,7 +109,14 @@ fn cli_path() -> String {
 
 /// (exit code or -1 for signal / -2 for timeout, stdout)
 fn run_cli(args: &[&std::ffi::OsStr]) -> (i32, Vec<u8>) {
-    let mut child = Command::new(cli_path())
+    // glibc malloc tunables for the child only: in this VM a page fault costs ~80 us and `ragc create` spends
+    // 10-30 s memset-ing fresh zstd level-19 contexts; huge pages / no mmap per allocation make it ~0.3 s.
+    // They change how malloc obtains pages, not what the program computes (archives are byte-identical).
+    let mut cmd = Command::new(cli_path());
+    if std::env::var("RAGC_CLI_NO_TUNABLES").is_err() {
+        cmd.env("GLIBC_TUNABLES", "glibc.malloc.hugetlb=1:glibc.malloc.mmap_threshold=4294967296:glibc.malloc.trim_threshold=4294967296");
+    }
+    let mut child = cmd
         .args(args)
         .stdin(Stdio::null())
         .stdout(Stdio::piped())
